@@ -20,6 +20,16 @@
 
 namespace vita
 {
+#if defined(VITA_VERIF)
+namespace verif_hook
+{
+/// Verification hook: scheduling points inside the critical sections of
+/// vita::cache. A no-op unless a callback is installed.
+extern void (*sched_callback)(int);
+inline void sched_point(int id) { if (sched_callback) sched_callback(id); }
+}  // namespace verif_hook
+#endif
+
 ///
 /// Implements a hash table that links individuals' signature to fitness
 /// (mainly used by the evaluator_proxy class).
